@@ -69,6 +69,7 @@ fn doms_slice_rt() -> Vec<Vec<u64>> {
 fn run_slice_rt(v: &[u64]) {
     let x = bytes3(v, 2, v[0]);
     let y = bytes3(v, 5, v[1]);
+    crate::section("VF:slice.read");
     let mut r = SR::default();
     let mut twin = SR::default(); // canonical form only, never reserves
     let i0 = push_form(&mut r, &x, v[8]);
@@ -76,10 +77,12 @@ fn run_slice_rt(v: &[u64]) {
     vassert!(i0 == t0, "VF:slice.forms.index0");
     read_is(r.index(i0), &x);
     if v[9] == 1 {
+        crate::section("VF:slice.reserve");
         r.reserve_items(std::iter::once(y.as_slice()));
         r.reserve_regions(std::iter::once(&twin));
         read_is(r.index(i0), &x);
     }
+    crate::section("VF:slice.read");
     let i1 = push_form(&mut r, &y, (v[8] + 1) % 7);
     let t1 = twin.push(y.as_slice());
     vassert!(i1 == t1, "VF:slice.forms.index1");
@@ -253,6 +256,7 @@ fn row(k: usize, w: u64) -> Vec<u8> {
     (0..w as usize).map(|c| (10 * (k + 1) + c) as u8).collect()
 }
 fn cols_body<O: flatcontainer::impls::index::IndexContainer<usize>>(v: &[u64]) {
+    crate::section("VF:columns.row");
     let rows = [row(0, v[0]), row(1, v[1]), row(2, v[2])];
     let mut r = <ColumnsRegion<MirrorRegion<u8>, O>>::default();
     let mut idx = Vec::new();
@@ -298,6 +302,7 @@ fn cols_body<O: flatcontainer::impls::index::IndexContainer<usize>>(v: &[u64]) {
     }
     vassert!(idx == vec![0, 1, 2], "VF:columns.dense_indices");
     // fail-stop probe on the middle row
+    crate::section("VF:columns.get");
     let probe = v[5] as usize;
     let got = r.index(idx[1]);
     if probe >= rows[1].len() {
@@ -332,6 +337,7 @@ where
 {
     let pool = ["ab", "€", ""];
     let s = [pool[v[0] as usize], pool[v[1] as usize], pool[v[2] as usize]];
+    crate::section("VF:collapse.plain");
     let mut r = R::default();
     let i0 = r.push(s[0]);
     let u0 = used(&r);
@@ -343,6 +349,7 @@ where
     vassert!(r.index(i0) == s[0] && r.index(i1) == s[1], "VF:collapse.reads");
     match v[3] {
         0 => {
+            crate::section("VF:collapse.plain");
             let i2 = r.push(s[2]);
             if s[1] == s[2] {
                 vassert!(i2 == i1, "VF:collapse.equal_returns_previous_index");
@@ -350,6 +357,7 @@ where
             vassert!(r.index(i0) == s[0] && r.index(i1) == s[1] && r.index(i2) == s[2], "VF:collapse.reads");
         }
         1 => {
+            crate::section("VF:collapse.after_clear_read");
             r.clear();
             let u_cleared = used(&r);
             let fresh_idx = R::default().push(s[2]);
@@ -368,6 +376,7 @@ where
             vassert!(r.index(i4) == s[2], "VF:collapse.after_clear_read");
         }
         2 => {
+            crate::section("VF:collapse.after_merge_read");
             let mut m = R::merge_regions(std::iter::once(&r));
             let u_merged = used(&m);
             let fresh_idx = R::default().push(s[1]);
@@ -381,6 +390,7 @@ where
         }
         4 => {
             // clone_from into a destination with its own, different history must behave exactly like clone
+            crate::section("VF:collapse.clone_from");
             let mut d = R::default();
             let _ = d.push(s[2]);
             let _ = d.push(s[0]);
@@ -394,6 +404,7 @@ where
             vassert!(d.index(i0) == s[0] && d.index(i1) == s[1], "VF:collapse.clone_from_old_reads");
         }
         _ => {
+            crate::section("VF:collapse.clone");
             let mut c = r.clone();
             let ic = c.push(s[2]);
             let ir = r.push(s[2]);
